@@ -14,6 +14,8 @@ type intrinsic func(r *Run, caller *frame, fn *ssa.Function, args []Value) Value
 
 var intrinsics map[string]intrinsic
 
+var rtypeMarker = types.NewNamed(types.NewTypeName(token.NoPos, nil, "reflect.rtype#vf", nil), types.NewStruct(nil, nil), nil)
+
 type errObj struct {
 	msg   Str
 	wraps []Value // Iface values
@@ -616,6 +618,20 @@ func init() {
 		},
 
 		// ---- reflect
+		"reflect.TypeOf": func(r *Run, c *frame, fn *ssa.Function, a []Value) Value {
+			iv := a[0].(Iface)
+			if iv.T == nil {
+				return Iface{}
+			}
+			key := "rtype:" + iv.T.String()
+			p, ok := r.opaqueG[key]
+			if !ok {
+				p = new(Value)
+				*p = &Opaque{Kind: "rtype", Name: iv.T.String()}
+				r.opaqueG[key] = p
+			}
+			return Iface{T: rtypeMarker, V: *p}
+		},
 		"reflect.DeepEqual": func(r *Run, c *frame, fn *ssa.Function, a []Value) Value {
 			return r.deepEqual(a[0], a[1], 0)
 		},
